@@ -231,7 +231,8 @@ claim('C18', 'model_checking',
       'arbitrary int32 size: z3 proves the position strictly increases or the loop leaves (models replayed as real '
       'datagrams under a watchdog); (d) SystemAction / ServerAction / CmdPeriod / NotificationCenter histories vs an '
       'ordered list, also with an action that unregisters a later one while the registry runs; (e) the real UDP '
-      'receive loop on a scripted socket; plus CrossHair '
+      'receive loop on a scripted socket (also datagrams that are not utf-8); bundles with nested bundles at any '
+      'position: every message dispatched once with the time of its own enclosing bundle; plus CrossHair '
       'bug hunting: no datagram of <= 20 bytes raises into the receiver.',
       _TB + '; the regex->z3 converter and the OSC 1.0 reading stated in the evidence.',
       'SMT regular-language equivalence + decision-tree model checking of the real dispatchers + SMT ranking obligation',
